@@ -20,8 +20,10 @@ so handing y to the operation instead of x turns every single-operation oracle i
 "the answer does not depend on how the object got its content".  Hidden numbers under the mask may
 differ between x and y (C03 says they do not exist).
 
-modes: 'setitem', 'iadd', 'isub', 'imul', 'itruediv', 'iand', 'ior', 'ixor'; ``modes_for(x)`` lists
-the ones that apply to x.  ``reach`` returns x itself when the mode cannot be applied."""
+modes: 'setitem', 'iadd', 'isub', 'imul', 'itruediv', 'iand', 'ior', 'ixor', and 'derived' (not in-place:
+x0 = x - 2.0 gets a derivative 'h', every cached view of x0 is asked for, y = x0 + 2.0 takes the
+number fast path that clones x0 with its cache; y then carries the extra derivative 'h');
+``modes_for(x)`` lists the ones that apply to x.  ``reach`` returns x itself when the mode cannot be applied."""
 import numpy as np
 
 
@@ -44,6 +46,8 @@ def modes_for(x):
     if x.is_bool():
         return ['setitem', 'iand', 'ior', 'ixor'] if not x.item else ['setitem']
     m = ['setitem', 'iadd', 'isub']
+    if x.is_float() and x.DERIVS_OK and not x.derivs and type(x).__name__ not in ('Matrix3', 'Quaternion'):
+        m.append('derived')
     if x.derivs or type(x).__name__ == 'Matrix3':
         return m        # *= and /= OR the operand's mask into the derivatives' own masks; Matrix3 *= Scalar is unsupported
     if x.is_float():
@@ -74,7 +78,7 @@ def reach(Pm, x, mode, k=0):
         y = _reach(Pm, x, mode, k)
     except Exception:      # noqa  (the history cannot be built for this object: use the fresh one)
         return x
-    return y if same_content(Pm, x, y) else x
+    return y if same_content(Pm, x, y, derivs=(mode != 'derived')) else x
 
 
 class _NotApplicable(Exception):
@@ -87,6 +91,11 @@ def _reach(Pm, x, mode, k):
     shape = tuple(x.shape)
     size = int(np.prod(shape)) if shape else 1
     xm = _expanded_mask(x)
+    if mode == 'derived':
+        x0 = x - 2.0
+        x0.insert_deriv('h', x0.wod.copy())
+        warm(x0)
+        return x0 + 2.0
     if mode == 'setitem':
         if not shape or size == 0:
             raise _NotApplicable()
@@ -129,7 +138,7 @@ def _reach(Pm, x, mode, k):
     return y
 
 
-def same_content(Pm, x, y):
+def same_content(Pm, x, y, derivs=True):
     """sanity: y has the observable content of x (used by the self-test of this module)"""
     if type(x) is not type(y) or x.shape != y.shape or x.item != y.item:
         return False
@@ -148,6 +157,6 @@ def same_content(Pm, x, y):
             return False
     elif not xm and np.asarray(xv).tobytes() != np.asarray(yv).tobytes():
         return False
-    if sorted(x.derivs) != sorted(y.derivs):
+    if derivs and sorted(x.derivs) != sorted(y.derivs):
         return False
     return True
